@@ -347,12 +347,17 @@ func noStreamingAfterCombine(n *int) func(dag.Seq) {
 	return func(seq dag.Seq) { walk(seq, false) }
 }
 
+var keyFunctionRE = regexp.MustCompile(`"kind":"Summarize","limit":\d+,"keys":\[\{"kind":"Assignment","lhs":\{[^{}]*\},"rhs":\{"kind":"Call","name":"(floor|ceil|round|bucket|every)"`)
+
+// keyFunctionPresent: some summarize of the plan has a key function as its first key.
+func keyFunctionPresent(dagJSON string) bool { return keyFunctionRE.MatchString(dagJSON) }
+
 // bothCausesAgree runs the optimized plan with the missing keys put into the
 // null group AND the direction taken out of the combine-fed summarizes, and
 // compares it with pm (the plan as analysed with the same key rewrite).
-func bothCausesAgree(seq ast.Seq, src source, pm result, compare func(a, b []zed.Value) string) bool {
+func bothCausesAgree(seq ast.Seq, src source, pm result, compare func(a, b []zed.Value) string, dropFunc bool) bool {
 	var n1, n2 int
-	f1, f2 := missingKeyAsNull(nil, true, &n1), noStreamingAfterCombine(&n2)
+	f1, f2 := rewriteFirstKey(nil, true, dropFunc, &n1), noStreamingAfterCombine(&n2)
 	r := runOnePost(seq, src, true, nil, func(seq dag.Seq) { f1(seq); f2(seq) })
 	return r.stage == "" && compare(pm.vals, r.vals) == ""
 }
@@ -363,9 +368,23 @@ func bothCausesAgree(seq ast.Seq, src source, pm result, compare func(a, b []zed
 // an input sort direction (streaming, for an optimized plan) or those whose
 // identity is in sigs (for the plan as analysed).  It reports how many it rewrote.
 func missingKeyAsNull(sigs map[string]bool, streaming bool, n *int) func(dag.Seq) {
+	return rewriteFirstKey(sigs, streaming, false, n)
+}
+
+// keyFunctionRemoved is missingKeyAsNull that also replaces a key function f(k)
+// by its argument k (a non-monotone f is then out of the picture in both plans).
+func keyFunctionRemoved(sigs map[string]bool, streaming bool, n *int) func(dag.Seq) {
+	return rewriteFirstKey(sigs, streaming, true, n)
+}
+
+func rewriteFirstKey(sigs map[string]bool, streaming, dropFunc bool, n *int) func(dag.Seq) {
 	wrap := func(k, e dag.Expr) dag.Expr {
+		// is_error(k) and under(k)=="missing" (missing(k) itself answers other
+		// error values of k with that error)
 		return &dag.Conditional{Kind: "Conditional",
-			Cond: &dag.Call{Kind: "Call", Name: "missing", Args: []dag.Expr{k}},
+			Cond: dag.NewBinaryExpr("and",
+				&dag.Call{Kind: "Call", Name: "is_error", Args: []dag.Expr{k}},
+				dag.NewBinaryExpr("==", &dag.Call{Kind: "Call", Name: "under", Args: []dag.Expr{k}}, &dag.Literal{Kind: "Literal", Value: `"missing"`})),
 			Then: &dag.Literal{Kind: "Literal", Value: "null"},
 			Else: e}
 	}
@@ -384,9 +403,22 @@ func missingKeyAsNull(sigs map[string]bool, streaming bool, n *int) func(dag.Seq
 					}
 				case *dag.Call:
 					// f(k): the group of the values without k becomes null as well
-					if len(rhs.Args) > 0 {
+					if rhs.Name == "every" {
+						// every(d) is bucket(this.ts, d)
+						ts := &dag.This{Kind: "This", Path: field.Path{"ts"}}
+						if dropFunc {
+							s.Keys[0].RHS = wrap(ts, ts)
+						} else {
+							s.Keys[0].RHS = wrap(ts, rhs)
+						}
+						*n++
+					} else if len(rhs.Args) > 0 {
 						if this, ok := rhs.Args[0].(*dag.This); ok && len(this.Path) > 0 {
-							s.Keys[0].RHS = wrap(this, rhs)
+							if dropFunc {
+								s.Keys[0].RHS = wrap(this, this)
+							} else {
+								s.Keys[0].RHS = wrap(this, rhs)
+							}
 							*n++
 						}
 					}
@@ -868,7 +900,7 @@ func runCase(c Case) *vt.Outcome {
 			switch {
 			case np > 0 && no > 0 && pm.stage == "" && om.stage == "" && compare(pm.vals, om.vals) == "":
 				known = "C07/sortkey-summarize/null-and-missing-keys-interleaved"
-			case np > 0 && no > 0 && nc > 0 && pm.stage == "" && bothCausesAgree(seq, src, pm, compare):
+			case np > 0 && no > 0 && nc > 0 && pm.stage == "" && bothCausesAgree(seq, src, pm, compare, false):
 				// both root causes at once
 				const combineSig = "C07/sortkey-summarize/input-order-assumed-through-fork-combine"
 				known = "C07/sortkey-summarize/null-and-missing-keys-interleaved"
@@ -877,8 +909,24 @@ func runCase(c Case) *vt.Outcome {
 				} else {
 					known = combineSig
 				}
-			case hasNull && keyIsFloat(c) && regexp.MustCompile(`"kind":"Summarize","limit":\d+,"keys":\[\{"kind":"Assignment","lhs":\{[^{}]*\},"rhs":\{"kind":"Call","name":"(floor|ceil|round)"`).MatchString(opt.dag):
-				known = "C07/sortkey-summarize/rounding-function-of-null-float-key"
+			default:
+				// Root cause "a key function that the optimizer takes for order
+				// preserving (floor, ceil, round, bucket, every) is not, on the values
+				// at hand": floor(null float) is 0., and for a missing, null or
+				// non-numeric argument the result is an error value that embeds the
+				// argument and is ordered by its encoding.  Group by the argument
+				// itself (missing keys in the null group) in both plans: if they then
+				// agree, the function was the cause.
+				var fp, fo int
+				pf := runOnePost(seq, src, false, keyFunctionRemoved(opt.streamSigs, false, &fp), nil)
+				of := runOnePost(seq, src, true, nil, keyFunctionRemoved(nil, true, &fo))
+				if fp > 0 && fo > 0 && pf.stage == "" && of.stage == "" && keyFunctionPresent(opt.dag) &&
+					(compare(pf.vals, of.vals) == "" || nc > 0 && bothCausesAgree(seq, src, pf, compare, true)) {
+					known = "C07/sortkey-summarize/order-preserving-function-of-non-numeric-key"
+					if hasNull && keyIsFloat(c) {
+						known = "C07/sortkey-summarize/rounding-function-of-null-float-key"
+					}
+				}
 			}
 			if vt.IsKnown(known) {
 				// everything but the streaming release has been checked by r
